@@ -53,6 +53,11 @@ enum BackendKind {
 
 #[inline]
 fn get_selected_backend() -> BackendKind {
+    #[cfg(curve25519_dalek_verif)]
+    if let Some(forced) = verif_forced_backend() {
+        return forced;
+    }
+
     #[cfg(all(curve25519_dalek_backend = "unstable_avx512", nightly))]
     {
         cpufeatures::new!(cpuid_avx512, "avx512ifma", "avx512vl");
@@ -72,6 +77,31 @@ fn get_selected_backend() -> BackendKind {
     }
 
     BackendKind::Serial
+}
+
+/// Verification hook: the dispatcher override set through `crate::verif::force_backend`.
+#[cfg(curve25519_dalek_verif)]
+fn verif_forced_backend() -> Option<BackendKind> {
+    match crate::verif::FORCED_BACKEND.load(core::sync::atomic::Ordering::SeqCst) {
+        1 => Some(BackendKind::Serial),
+        #[cfg(curve25519_dalek_backend = "simd")]
+        2 => Some(BackendKind::Avx2),
+        #[cfg(all(curve25519_dalek_backend = "unstable_avx512", nightly))]
+        3 => Some(BackendKind::Avx512),
+        _ => None,
+    }
+}
+
+/// Verification hook: what `get_selected_backend` returns right now.
+#[cfg(curve25519_dalek_verif)]
+pub(crate) fn verif_selected_backend() -> u8 {
+    match get_selected_backend() {
+        #[cfg(curve25519_dalek_backend = "simd")]
+        BackendKind::Avx2 => 2,
+        #[cfg(all(curve25519_dalek_backend = "unstable_avx512", nightly))]
+        BackendKind::Avx512 => 3,
+        BackendKind::Serial => 1,
+    }
 }
 
 #[allow(missing_docs)]
